@@ -232,3 +232,26 @@ package hsrv
 //@   props C05
 //@   nosafety
 //@   on enter Server.Printf(ss, c, f, v): if f == CurlFormat + FileSuffix { assert(boxes(v[0], s.l.Fingerprint), "file_one_liner_shows_listener_fingerprint") }
+
+// listenAddresses: a callback address without a port gets the port the
+// listener is actually bound to; every address derived from an interface
+// carries that port too.
+//@ func Server.listenAddresses(s) (addrs, err)
+//@   props C05
+//@   assumes listening: s.l.Listener != nil
+//@   ghost portv string = ""
+//@   ghost nPort int = 0
+//@   ghost nParse int = 0
+//@   on call netip.ParseAddrPort(x) (p, e): if nParse == 0 { assert(x == s.l.Addr().String(), "bound_address_is_parsed") }; nParse++
+//@   on call strconv.Itoa(n) (v): assert(nPort == 0 && n == int(ap.Port()), "port_text_is_the_bound_port"); portv = v; nPort++
+//@   on enter net.JoinHostPort(h, p): assert(nPort == 1 && p == portv && p == port, "added_port_is_the_bound_port")
+//@   ghost lastA string = ""
+//@   ghost lastHas bool = false
+//@   on call net.SplitHostPort(x) (h, p, e): lastA = x; lastHas = (p != "" && e == nil)
+//@   before "addrs = append(addrs, a)": assert(lastA == s.cbAddrs[k] && a == cond(lastHas, lastA, net.JoinHostPort(lastA, port)), "callback_address_gets_the_bound_port_unless_it_has_one")
+//@   loop 1 counter k
+//@     invariant port_known: nPort == 1
+//@   loop 2
+//@     invariant port_known: nPort == 1
+//@   loop 2.1
+//@     invariant port_known: nPort == 1
